@@ -221,11 +221,9 @@ class Engine:
         v.status = 'inconclusive'
         v.note = 'reference child ' + st
     else:
-      ans = msg['result']['value']
-      if ans != ob['expect']:
-        v.violations.append({'cls': ob['cls'], 'step': ob['step'],
-                             'detail': '%s: observed %s, fresh-process reference %s'
-                                       % (ob['detail'], _short(ob['expect']), _short(ans))})
+      viol = compare_obligation(ob, msg['result']['value'])
+      if viol is not None:
+        v.violations.append(viol)
     if not w:
       del self.waiting[id(v)]
       if v.status == 'pending':
@@ -264,6 +262,31 @@ class Engine:
 
   def run_doc(self, doc, classes):
     return self.run_many([(0, {'prop': self.prop, 'doc': doc}, classes)])[0]
+
+
+def compare_obligation(ob, ans):
+  """None if the reference answer equals the expectation, else a violation dict.
+
+  ob['cls'] is a class name (whole-value comparison) or an ordered list of
+  [subkey, class] pairs (first differing subkey decides the class).
+  """
+  exp = ob['expect']
+  if isinstance(ob['cls'], str):
+    if ans == exp:
+      return None
+    return {'cls': ob['cls'], 'step': ob['step'],
+            'detail': '%s: observed %s, fresh-process reference %s'
+                      % (ob['detail'], _short(exp), _short(ans))}
+  for key, cls in ob['cls']:
+    if exp.get(key) is None and key != 'load':
+      continue
+    if ans.get(key) != exp.get(key):
+      if str(ans.get(key)).startswith('raise:') and cls.endswith('reload-raises'):
+        cls = cls + '/' + str(ans.get(key)).split(':')[-1]
+      return {'cls': cls, 'step': ob['step'],
+              'detail': '%s: %s: observed %s, fresh-process reference %s'
+                        % (ob['detail'], key, _short(exp.get(key)), _short(ans.get(key)))}
+  return None
 
 
 def _short(x):
@@ -365,10 +388,9 @@ def replay_fresh(prop, doc, scratch):
   viol = list(res['violations'])
   for o in res['obligations']:
     ans = oneshot(prop, hs['ref'], 'ref', {'prop': prop, 'ob': o['payload']}, scratch)
-    if ans != o['expect']:
-      viol.append({'cls': o['cls'], 'step': o['step'],
-                   'detail': '%s: observed %s, fresh-process reference %s'
-                             % (o['detail'], _short(o['expect']), _short(ans))})
+    one = compare_obligation(o, ans)
+    if one is not None:
+      viol.append(one)
   return viol, res
 
 
